@@ -1514,3 +1514,28 @@ M("C18-inserted-id-record-is-sliced", "C18", "R18.3", WK,
 M("C20-subproject-ctor-drops-progress-rate", "C20", "R16.7", SP,
   """default_work_amount=default_work_amount, work_amount_progress_of_unit_step_time=work_amount_progress_of_unit_step_time, input_task_list=input_task_list""",
   """default_work_amount=default_work_amount, input_task_list=input_task_list""")
+# ---------------------------------------------------------------------------------------- round 8 rules
+M("C02-absence-membership-assumes-sorted-list", "C02", "R10.2", WK,
+  """        if step_time in self.absence_time_list:""",
+  """        if len(self.absence_time_list) > 0 and step_time <= self.absence_time_list[-1] and step_time in self.absence_time_list:""")
+M("C04-empty-fixed-id-list-becomes-none", "C04", "R4.6", TK,
+  """fixing_allocating_worker_id_list if fixing_allocating_worker_id_list is not None else None""",
+  """fixing_allocating_worker_id_list if fixing_allocating_worker_id_list else None""")
+M("C06-can-put-loses-tolerance", "C06", "R13.3", WP,
+  """        if self.get_available_space_size() > component.space_size - error_tol:
+            can_put = True""",
+  """        if self.get_available_space_size() >= component.space_size:
+            can_put = True""")
+M("C13-move-guard-tests-current-task-only", "C13", "R13.3", PJ,
+  """all((len(t.allocated_worker_list) == 0 for t in component.targeted_task_list))""",
+  """all((len(task.allocated_worker_list) == 0 for t in component.targeted_task_list))""")
+M("C17-fs-gate-accepts-working-predecessor-without-work", "C17", "R1.2", WF,
+  """                if dependency == BaseTaskDependency.FS:
+                    if input_task.state == BaseTaskState.FINISHED:
+                        ready = True""",
+  """                if dependency == BaseTaskDependency.FS:
+                    if input_task.state == BaseTaskState.FINISHED or (input_task.state == BaseTaskState.WORKING and input_task.remaining_work_amount < 1e-10):
+                        ready = True""")
+M("C19-task-encoder-forgets-fifth-state", "C19", "R19.1", TK,
+  """state != BaseTaskState.READY and state != BaseTaskState.WORKING""",
+  """state in (BaseTaskState.NONE, BaseTaskState.FINISHED)""")
